@@ -22,6 +22,9 @@ func tmplForType(tm *refsem.TModel, free bool, thorough bool, schema *jsonschema
 		d = 3
 	}
 	maxLen := 2
+	if thorough && !free && len(tm.Fields) < 6 {
+		maxLen = 3 // thorough C04: longer slices and arrays
+	}
 	if len(tm.Fields) >= 6 || (free && !thorough && len(tm.Fields) >= 3) {
 		maxLen = 1 // wide structs: every field forks; keep containers short
 	}
@@ -226,7 +229,7 @@ func (w *Worker) RunTypeCase(tcase TypeCase, enc bool, property string, thorough
 		case smt.Unsat:
 			res.VerdictUnsat++
 		case smt.Unknown:
-			if m.S.CheckSecondOpinion(120, "z3-new", "-smt2") == smt.Unsat {
+			if secondLookUnsat(m) {
 				res.VerdictUnsat++
 				res.SecondOpinion++
 				break
@@ -367,7 +370,7 @@ func init() {
 				r.AddSkel(skels[i], s)
 			}
 			r.Bounds = append(r.Bounds, boundsValidate...)
-			r.Bounds = append(r.Bounds, fmt.Sprintf("types are enumerated (%d declared types: every basic kind, pointers/slices/arrays/maps to depth 3, structs with every json tag form, embedded structs by value and pointer, promoted/shadowed/ambiguous fields, named types, duplicate names, standard-library marshaler types for C04); per type the instance template is shaped by the type (depth <= 3, array length <= 2, keys = all JSON names + one fresh)", len(cases)))
+			r.Bounds = append(r.Bounds, fmt.Sprintf("types are enumerated (%d declared types: every basic kind, pointers/slices/arrays/maps to depth 3, structs with every json tag form, embedded structs by value and pointer, promoted/shadowed/ambiguous fields, named types, duplicate names, standard-library marshaler types for C04); per type the instance template is shaped by the type (depth <= 3, array length <= 2 (3 in the thorough tier of C04), keys = all JSON names + the names the inferred schema declares + one fresh)", len(cases)))
 			if enc {
 				r.Bounds = append(r.Bounds, "C04: the instance is assumed to satisfy O-enc(T), the encoding/json contract for T whose struct layer (emitted names, optionality) is observed on the real encoding/json by marshaling probe values; every path must end with verdict nil; the solver covers all integers of each sized kind, nil vs non-nil at every pointer/slice, every subset of omitted optional fields")
 			} else {
